@@ -514,10 +514,11 @@ def stamp_dt(k):
 
 
 def run(chk):
-    chk.proof(MODULE, THEOREMS)
+    from props import weather
+    chk.proof(MODULE, THEOREMS + weather.THEOREMS, extra_modules=[weather.MODULE])
     thorough = chk.tier == 'thorough'
     if thorough:
-        chk.leanchecker([MODULE])
+        chk.leanchecker([MODULE, weather.MODULE])
     rng = chk.rng
 
     # ---- tie 1: driver-only execution of the real simulate vs the Lean driver --------------------
@@ -701,6 +702,8 @@ def run(chk):
                mismatches=0 if wit == (7686143364045647, 59, 7881299347898369, 50, 7) else 1)
     if wit != (7686143364045647, 59, 7881299347898369, 50, 7):
         chk.notes.append('T6 witness differs on this platform: %r' % (wit,))
+    # the source of every record: Weather.__init__ + str2fl on the window rows, exact tie to the Lean model
+    weather.run_weather(chk)
     chk.assumptions.append('the rural file has 8760 hourly rows stamped in the EPW hour-ending convention '
                            '(checked for every file used in the run)')
     chk.assumptions.append('the physics called inside the loop does not touch the clock, the record counter '
